@@ -34,6 +34,10 @@ type SimReader struct {
 	Err        error
 	MaxZeroRun int
 
+	// ZeroOutOf4 is the chance (out of 4, default 1) of an empty read where
+	// one is allowed.
+	ZeroOutOf4 int
+
 	// NegativeCounts (out of 64 per call, 0 = never) makes the reader break
 	// the io.Reader contract by returning a negative count now and then.
 	NegativeCounts int
@@ -112,7 +116,7 @@ func (r *SimReader) Read(p []byte) (n int, err error) {
 
 		return -1 - r.Tape.Choose(4), nil
 	}
-	if r.ZeroReads && r.zeroRun < r.MaxZeroRun && r.Tape.Bool(1, 4) {
+	if r.ZeroReads && r.zeroRun < r.MaxZeroRun && r.Tape.Bool(max(r.ZeroOutOf4, 1), 4) {
 		r.zeroRun++
 		r.Stats.Fault("read-zero-nil")
 
